@@ -409,7 +409,38 @@ def task_header_write_padding(scratch, tier, seed, logdir):
         ob.d["detail"] = (ob.d["detail"] + f" [{nvc} distinct VCs, {len(paths)} paths]").strip()
     except (LookupError, ValueError, RuntimeError, KeyError, IndexError) as e:
         ob.fail("inconclusive", f"translator: {type(e).__name__}: {e}")
+    if ob.d["status"] == "violation":
+        # native confirmation: write every dict length modulo 64 (shapes [1; k] + one wider entry) in
+        # all three versions and validate the NPY layout of what comes out
+        ob.d["native_test"] = dict(crate="sfs-core", file="core/src/array/npy/header.rs", name="kv_header_write_all_residues", code=HEADER_NATIVE_TEST)
     return [ob.done()]
+
+
+HEADER_NATIVE_TEST = r"""
+    #[test]
+    fn kv_header_write_all_residues() {
+        let mut seen = [false; 64];
+        for k in 1..70usize {
+            for wide in [1usize, 10, 100] {
+                let mut shape = vec![1usize; k];
+                shape[0] = wide;
+                for version in [Version::V1, Version::V2, Version::V3] {
+                    let dict = HeaderDict::new(TypeDescriptor::new(Endian::Little, Type::F8), false, shape.clone());
+                    let text_len = dict.to_string().len();
+                    let hl_bytes = version.header_len_bytes_len();
+                    seen[(8 + hl_bytes + text_len) % 64] = true;
+                    let mut out = Vec::new();
+                    Header::new(version, dict).write(&mut out).unwrap();
+                    assert_eq!(out.len() % 64, 0, "data must start at a multiple of 64 (dict length {text_len})");
+                    assert_eq!(*out.last().unwrap(), b'\n', "header must end in a newline (dict length {text_len})");
+                    let declared = if hl_bytes == 2 { u16::from_le_bytes([out[8], out[9]]) as usize } else { u32::from_le_bytes([out[8], out[9], out[10], out[11]]) as usize };
+                    assert_eq!(8 + hl_bytes + declared, out.len(), "header length field (dict length {text_len})");
+                }
+            }
+        }
+        assert!(seen.iter().all(|&s| s), "every residue of the unpadded header length modulo 64 was exercised");
+    }
+"""
 
 
 # ------------------------------------------------------------------------------------------------
